@@ -7,7 +7,8 @@
             q      the QuerySem query,  st  the serialised statement (harness/sqlast.py: ser_select),
             take   number of leading result columns compared (1 for entity results: the primary key; 0 = all),
             slice  <<>> or <<start, stop>> (stop = -1: open) applied to the expected sequence (LIMIT/OFFSET),
-            ds     the data sets (indices) to judge on
+            ds     the data sets (indices) to judge on,  exp  per data set [r |-> RefEval's result, a |-> <<>> or
+                   <<result under the other reading>>] as exported by QuerySemTables (C01's table) in the same run
    output per item and data set: agree / engine error / the rows SqlSem computed (always when In.rows: the
    harness compares them with the real SQLite engine, validating the SQLite instance of the model). *)
 EXTENDS SqlSem, Json, IOUtils
@@ -47,12 +48,13 @@ Agrees(it, r, got) ==
     IF r.kind = "seq" THEN SeqAgree(it.d, Sliced(r.rows, it.slice), Sliced(r.keys, it.slice), got)
     ELSE BagAgree(it.d, r.rows, got)
 
-Verdict(it, k) ==
-    LET D   == Q!DataSets[k]
+Verdict(it, j) ==
+    LET k   == it.ds[j]
+        D   == Q!DataSets[k]
         sql == EvalSelect(it.st, [tabs |-> D], it.d)
         got == [i \in 1 .. Len(sql.rows) |-> Take(sql.rows[i], it.take)]
-        r1  == Q!RefEval(it.q, D)
-        ok  == sql.ok /\ (Agrees(it, r1, got) \/ (Q!HasMember(it.q.cond) /\ Agrees(it, Q!RefEvalAlt(it.q, D), got)))
+        r1  == it.exp[j].r               \* QuerySem!RefEval(it.q, D), exported by QuerySemTables in the same run
+        ok  == sql.ok /\ (Agrees(it, r1, got) \/ (Len(it.exp[j].a) > 0 /\ Agrees(it, it.exp[j].a[1], got)))
         \* not the Python answer, but exactly what C01 already records as a deviation of the translator itself
         \* (the same on every dialect): reported under C01, only counted here
         c01 == IF ok \/ ~sql.ok THEN <<>>
@@ -61,8 +63,7 @@ Verdict(it, k) ==
         got |-> IF ok /\ ~In.rows THEN <<>> ELSE sql.rows,
         exp |-> IF ok THEN <<>> ELSE Sliced(r1.rows, it.slice)]
 
-Report(it) == IF ~Q!WellTyped(it.q) THEN [id |-> it.id, res |-> <<>>]
-              ELSE [id |-> it.id, res |-> [j \in 1 .. Len(it.ds) |-> Verdict(it, it.ds[j])]]
+Report(it) == [id |-> it.id, res |-> [j \in 1 .. Len(it.ds) |-> Verdict(it, j)]]
 
 ASSUME JsonSerialize(IOEnv.OUT, [i \in 1 .. Len(In.items) |-> Report(In.items[i])])
 =============================================================================
